@@ -1,5 +1,619 @@
 /-
-C13 — property theorems (stub; nothing proved yet).
+C13 — temperature schedules are followed faithfully.
+Property theorems about `KawinV.TempSched` (both `TemperatureParameters` classes, `np.interp`) and
+`KawinV.Lookup` (temperature bookkeeping of a binary KWN run), which are tied to the source by the
+correspondence check tools/corr/C13.py.  α is any linearly ordered field.
 -/
+import KawinV.Model.TempSched
+import KawinV.Model.Lookup
+import Mathlib.Tactic.Ring
+import Mathlib.Tactic.Linarith
+import Mathlib.Tactic.FieldSimp
+import Mathlib.Tactic.NormNum
+import Mathlib.Tactic.Push
+import Mathlib.Algebra.Order.Field.Basic
+
+set_option linter.unusedSectionVars false
+set_option linter.unusedVariables false
+set_option linter.unusedSimpArgs false
+
 namespace KawinV.Props.C13
+open KawinV.TempSched KawinV.Lookup
+
+variable {α : Type} [Field α] [LinearOrder α] [IsStrictOrderedRing α]
+
+/-! ## 1. break points: `np.interp` is the piecewise-linear interpolant, constant outside -/
+
+theorem le_lastD (x0 : α) (xs : List α) (h : (x0 :: xs).Pairwise (· < ·)) :
+    ∀ y ∈ x0 :: xs, y ≤ lastD x0 xs := by
+  induction xs generalizing x0 with
+  | nil => intro y hy; simp at hy; simp [lastD, hy]
+  | cons x1 xr ih =>
+    intro y hy
+    rw [List.pairwise_cons] at h
+    simp only [lastD]
+    rcases List.mem_cons.mp hy with rfl | hy
+    · exact (h.1 x1 (by simp)).le.trans (ih x1 h.2 x1 (by simp))
+    · exact ih x1 h.2 y hy
+
+/-- at a break point the search stops there and returns its value -/
+theorem seg_at_left (x0 f0 : α) (xs fs : List α) (h : (x0 :: xs).Pairwise (· < ·)) :
+    seg x0 x0 f0 xs fs = f0 := by
+  cases xs with
+  | nil => simp [seg]
+  | cons x1 xr =>
+    cases fs with
+    | nil => simp [seg]
+    | cons f1 fr =>
+      have : x0 < x1 := (List.pairwise_cons.mp h).1 x1 (by simp)
+      simp [seg, not_le.mpr this]
+
+/-- at or beyond the last break point the walk runs to the end -/
+theorem seg_ge_all (x x0 f0 : α) (xs fs : List α) (hlen : xs.length = fs.length)
+    (h : ∀ y ∈ xs, y ≤ x) : seg x x0 f0 xs fs = lastD f0 fs := by
+  induction xs generalizing x0 f0 fs with
+  | nil => cases fs <;> simp_all [seg, lastD]
+  | cons x1 xr ih =>
+    cases fs with
+    | nil => simp at hlen
+    | cons f1 fr =>
+      simp only [seg, lastD]
+      rw [if_pos (h x1 (by simp))]
+      exact ih x1 f1 fr (by simpa using hlen) (fun y hy => h y (by simp [hy]))
+
+theorem seg_first (x x0 f0 a fa : α) (post post' : List α)
+    (h : (x0 :: a :: post).Pairwise (· < ·)) (h0 : x0 ≤ x) (h1 : x ≤ a) :
+    seg x x0 f0 (a :: post) (fa :: post') = f0 + (fa - f0) * (x - x0) / (a - x0) := by
+  have hlt : x0 < a := (List.pairwise_cons.mp h).1 a (by simp)
+  have hne : a - x0 ≠ 0 := (sub_pos.mpr hlt).ne'
+  simp only [seg]
+  split
+  · next hax =>
+    have hxa : x = a := le_antisymm h1 hax
+    subst hxa
+    rw [seg_at_left x fa post post' (List.pairwise_cons.mp h).2]
+    field_simp
+    ring
+  · split
+    · ring
+    · next hx =>
+      have : x = x0 := le_antisymm (not_lt.mp hx) h0
+      subst this
+      simp
+
+theorem seg_between (x a b fa fb : α) (post post' : List α) (pre pre' : List α) (x0 f0 : α)
+    (hpre : pre.length = pre'.length)
+    (h : (x0 :: (pre ++ a :: b :: post)).Pairwise (· < ·)) (ha : a ≤ x) (hb : x ≤ b) :
+    seg x x0 f0 (pre ++ a :: b :: post) (pre' ++ fa :: fb :: post')
+      = fa + (fb - fa) * (x - a) / (b - a) := by
+  induction pre generalizing pre' x0 f0 with
+  | nil =>
+    cases pre' with
+    | cons _ _ => simp at hpre
+    | nil =>
+      simp only [List.nil_append, seg]
+      rw [if_pos ha]
+      exact seg_first x a fa b fb post post' (List.pairwise_cons.mp h).2 ha hb
+  | cons p pre2 ih =>
+    cases pre' with
+    | nil => simp at hpre
+    | cons q pre2' =>
+      have h2 := (List.pairwise_cons.mp h).2
+      have hpa : p < a := (List.pairwise_cons.mp h2).1 a (by simp)
+      simp only [List.cons_append, seg]
+      rw [if_pos (hpa.le.trans ha)]
+      exact ih pre2' p q (by simpa using hpre) h2
+
+/-- **between two consecutive break points** `(a, fa)`, `(b, fb)` of an increasing list the result
+is the straight line through them. -/
+theorem interp_between (x a b fa fb : α) (pre pre' post post' : List α)
+    (hpre : pre.length = pre'.length) (hpost : post.length = post'.length)
+    (h : (pre ++ a :: b :: post).Pairwise (· < ·)) (ha : a ≤ x) (hb : x ≤ b) :
+    npInterp x (pre ++ a :: b :: post) (pre' ++ fa :: fb :: post')
+      = some (fa + (fb - fa) * (x - a) / (b - a)) := by
+  cases pre with
+  | nil =>
+    cases pre' with
+    | cons _ _ => simp at hpre
+    | nil =>
+      have hlast := le_lastD a (b :: post) h b (by simp)
+      simp only [List.nil_append, npInterp, List.length_cons, hpost, if_true]
+      rw [if_neg (not_lt.mpr (hb.trans hlast)), if_neg (not_lt.mpr ha)]
+      exact congrArg some (seg_first x a fa b fb post post' h ha hb)
+  | cons p pre2 =>
+    cases pre' with
+    | nil => simp at hpre
+    | cons q pre2' =>
+      have h' : (p :: (pre2 ++ a :: b :: post)).Pairwise (· < ·) := by simpa using h
+      have hpa : p < a := (List.pairwise_cons.mp h').1 a (by simp)
+      have hlast := le_lastD p (pre2 ++ a :: b :: post) h' b (by simp)
+      have hl : (pre2 ++ a :: b :: post).length = (pre2' ++ fa :: fb :: post').length := by
+        simp only [List.length_append, List.length_cons] at hpre ⊢; omega
+      simp only [List.cons_append, npInterp, hl, if_true]
+      rw [if_neg (not_lt.mpr (hb.trans hlast)), if_neg (not_lt.mpr (hpa.le.trans ha))]
+      exact congrArg some (seg_between x a b fa fb post post' pre2 pre2' p q (by simpa using hpre) h' ha hb)
+
+/-- **at or before the first break point**: the first value -/
+theorem interp_left (x x0 f0 : α) (xs fs : List α) (hlen : xs.length = fs.length)
+    (h : (x0 :: xs).Pairwise (· < ·)) (hx : x ≤ x0) :
+    npInterp x (x0 :: xs) (f0 :: fs) = some f0 := by
+  have hlast := le_lastD x0 xs h x0 (by simp)
+  simp only [npInterp, hlen, if_true]
+  rw [if_neg (not_lt.mpr (hx.trans hlast))]
+  split
+  · rfl
+  · next hx' =>
+    have : x = x0 := le_antisymm hx (not_lt.mp hx')
+    subst this
+    rw [seg_at_left x f0 xs fs h]
+
+/-- **at or after the last break point**: the last value -/
+theorem interp_right (x x0 f0 : α) (xs fs : List α) (hlen : xs.length = fs.length)
+    (h : (x0 :: xs).Pairwise (· < ·)) (hx : lastD x0 xs ≤ x) :
+    npInterp x (x0 :: xs) (f0 :: fs) = some (lastD f0 fs) := by
+  simp only [npInterp, hlen, if_true]
+  split
+  · rfl
+  · have hx0 : x0 ≤ x := (le_lastD x0 xs h x0 (by simp)).trans hx
+    rw [if_neg (not_lt.mpr hx0)]
+    exact congrArg some (seg_ge_all x x0 f0 xs fs hlen
+      (fun y hy => (le_lastD x0 xs h y (by simp [hy])).trans hx))
+
+/-- error branches: empty or unequal lists raise -/
+theorem interp_raises (x : α) (xp fp : List α) (h : xp.length ≠ fp.length ∨ xp = []) :
+    npInterp x xp fp = none := by
+  cases xp with
+  | nil => simp [npInterp]
+  | cons x0 xs =>
+    cases fp with
+    | nil => simp [npInterp]
+    | cons f0 fs =>
+      rcases h with h | h
+      · have : xs.length ≠ fs.length := by simpa using h
+        simp [npInterp, this]
+      · simp at h
+
+/-! ### the schedule in seconds: break points are hours × 3600 -/
+
+theorem h3600 : (0:α) < 3600 := by norm_num
+
+/-- **break-point schedule, inside**: for `a·3600 ≤ t ≤ b·3600` (seconds; `a < b` consecutive break
+points in hours) the temperature is linear in `t` between `fa` and `fb`.  Precipitation class. -/
+theorem sched_between (s : PState α) (t a b fa fb : α) (pre pre' post post' : List α)
+    (hs : s.spec = .arr (pre ++ a :: b :: post) (pre' ++ fa :: fb :: post'))
+    (hpre : pre.length = pre'.length) (hpost : post.length = post'.length)
+    (h : (pre ++ a :: b :: post).Pairwise (· < ·)) (ha : a * 3600 ≤ t) (hb : t ≤ b * 3600) :
+    s.eval t = some (fa + (fb - fa) * (t - a * 3600) / (b * 3600 - a * 3600)) := by
+  have hab : a < b := by
+    have := List.pairwise_append.mp h
+    exact (List.pairwise_cons.mp this.2.1).1 b (by simp)
+  have hne : b - a ≠ 0 := (sub_pos.mpr hab).ne'
+  unfold PState.eval
+  rw [hs]
+  simp only
+  rw [interp_between (t / 3600) a b fa fb pre pre' post post' hpre hpost h
+    ((le_div_iff₀ h3600).mpr ha) ((div_le_iff₀ h3600).mpr hb)]
+  congr 1
+  have h1 : b * 3600 - a * 3600 ≠ 0 := by
+    have : b * 3600 - a * 3600 = (b - a) * 3600 := by ring
+    rw [this]; exact mul_ne_zero hne h3600.ne'
+  field_simp
+
+/-- **before the first break point** the first temperature, **after the last** the last one -/
+theorem sched_left (s : PState α) (t x0 f0 : α) (xs fs : List α)
+    (hs : s.spec = .arr (x0 :: xs) (f0 :: fs)) (hlen : xs.length = fs.length)
+    (h : (x0 :: xs).Pairwise (· < ·)) (ht : t ≤ x0 * 3600) : s.eval t = some f0 := by
+  unfold PState.eval; rw [hs]
+  exact interp_left _ x0 f0 xs fs hlen h ((div_le_iff₀ h3600).mpr ht)
+
+theorem sched_right (s : PState α) (t x0 f0 : α) (xs fs : List α)
+    (hs : s.spec = .arr (x0 :: xs) (f0 :: fs)) (hlen : xs.length = fs.length)
+    (h : (x0 :: xs).Pairwise (· < ·)) (ht : lastD x0 xs * 3600 ≤ t) :
+    s.eval t = some (lastD f0 fs) := by
+  unfold PState.eval; rw [hs]
+  exact interp_right _ x0 f0 xs fs hlen h ((le_div_iff₀ h3600).mpr ht)
+
+/-- constant and callable forms -/
+theorem sched_iso (s : PState α) (T t : α) : (s.setIso T).eval t = some T := rfl
+theorem sched_fn (s : PState α) (f : α → α) (t : α) : (s.setFn f).eval t = some (f t) := rfl
+
+/-- **both packages agree**: for the constant and the break-point form the diffusion schedule is,
+at every node, the precipitation schedule. -/
+theorem diffusion_eq_precipitation_iso (p : PState α) (d : DState α) (T : α) (z : List α) (t : α) :
+    (d.setIso T).eval z t = ((p.setIso T).eval t).map (fun v => List.replicate z.length v) := rfl
+
+theorem diffusion_eq_precipitation_arr (p : PState α) (d : DState α) (ts Ts z : List α) (t : α) :
+    (d.setArr ts Ts).eval z t = ((p.setArr ts Ts).eval t).map (fun v => List.replicate z.length v) := rfl
+
+theorem diffusion_fn (d : DState α) (f : List α → α → List α) (z : List α) (t : α) :
+    (d.setFn f).eval z t = some (f z t) := rfl
+
+/-! ## 2. constructor ≡ setter -/
+
+/-- **precipitation**: giving the arguments to the constructor is the same as constructing empty and
+calling `setTemperatureParameters` (what `model.setTemperature(*args)` does): same function, same flag. -/
+theorem ctor_eq_setter (a : Args α (α → α)) :
+    PState.ctor a = (PState.ctor .other).setParams a := by
+  cases a <;> rfl
+
+theorem ctor_scalar (T : α) : PState.ctor (.scalar T) = (PState.ctor (α := α) .other).setIso T := rfl
+theorem ctor_two (ts Ts : List α) : PState.ctor (.two ts Ts) = (PState.ctor (α := α) .other).setArr ts Ts := rfl
+theorem ctor_func (f : α → α) : PState.ctor (.func f) = (PState.ctor (α := α) .other).setFn f := rfl
+
+/-- the flag after `setTemperatureParameters`: isothermal exactly for a number; a call without
+usable arguments leaves it alone -/
+theorem setParams_flag (s : PState α) (a : Args α (α → α)) :
+    (s.setParams a).isIso = (match a with
+      | .scalar _ => true | .two _ _ => false | .func _ => false | .other => s.isIso) := by
+  cases a <;> rfl
+
+/-- **incubation treatment**: a schedule (break points or callable) is non-isothermal, a number is
+isothermal — through the constructor … -/
+theorem ctor_flag (a : Args α (α → α)) :
+    (PState.ctor a).isIso = (match a with
+      | .scalar _ => true | .two _ _ => false | .func _ => false | .other => true) := by
+  cases a <;> rfl
+
+/-- … and through any history of calls: a setting call decides function and flag alone -/
+theorem setParams_indep (s s' : PState α) (a : Args α (α → α)) (ha : a ≠ .other) :
+    s.setParams a = s'.setParams a := by
+  cases a <;> first | rfl | exact absurd rfl ha
+
+theorem setIso_indep (s s' : PState α) (T : α) : s.setIso T = s'.setIso T := rfl
+theorem setArr_indep (s s' : PState α) (ts Ts : List α) : s.setArr ts Ts = s'.setArr ts Ts := rfl
+theorem setFn_indep (s s' : PState α) (f : α → α) : s.setFn f = s'.setFn f := rfl
+
+/-- **D-C13-ctor, the code as it was**: the constructor reported isothermal whatever it was given … -/
+theorem ctorAsWas_flag (a : Args α (α → α)) : (PState.ctorAsWas a).isIso = true := rfl
+
+/-- … with the right function (only the flag was wrong) … -/
+theorem ctorAsWas_spec (a : Args α (α → α)) : (PState.ctorAsWas a).spec = (PState.ctor a).spec := rfl
+
+/-- … so constructor and setter disagreed for every schedule; witness: the break points of the
+test-suite (hours 0, 16, 17). -/
+theorem ctorAsWas_ne_setter :
+    PState.ctorAsWas (α := ℚ) (.two [0, 16, 17] [448, 448, 523])
+      ≠ (PState.ctorAsWas .other).setParams (.two [0, 16, 17] [448, 448, 523]) := by
+  intro h
+  have := congrArg PState.isIso h
+  simp [PState.ctorAsWas, PState.setParams, PState.setArr] at this
+
+/-- **diffusion**: constructor and setters are the same assignments -/
+theorem dctor_scalar (T : α) : DState.ctor (.scalar T) = (DState.ctor (α := α) .other).setIso T := rfl
+theorem dctor_two (ts Ts : List α) : DState.ctor (.two ts Ts) = (DState.ctor (α := α) .other).setArr ts Ts := rfl
+theorem dctor_func (f : List α → α → List α) :
+    DState.ctor (.func f) = (DState.ctor (α := α) .other).setFn f := rfl
+
+/-! ## 3. recorded temperature = schedule(time), every slice, every call history -/
+
+section run
+variable {σ : Type}
+
+/-- invariant: every recorded slice and the cached slice carry `schedule(time)` -/
+def Good (sched : α → α) (s : KState α σ) : Prop :=
+  (∀ sl ∈ s.slices, sl.temp = sched sl.time) ∧ (∀ y, s.currY = some y → y.temp = sched y.time)
+
+theorem good_setup (I : Impl α σ) (sched : α → α) : Good sched (setup I sched) := by
+  constructor
+  · intro sl hsl
+    simp only [setup, KState.slices, List.mem_singleton] at hsl
+    subst hsl; rfl
+  · intro y hy; simp [setup] at hy
+
+theorem good_depTerms (I : Impl α σ) (sched : α → α) (s : KState α σ) (t : α)
+    (h : Good sched s) : Good sched (depTerms I sched s t) := by
+  unfold depTerms
+  cases hc : s.currY with
+  | none =>
+    refine ⟨h.1, ?_⟩
+    intro y hy
+    simp only [Option.some.injEq] at hy
+    subst hy
+    exact h.1 s.cur (by simp [KState.slices])
+  | some y0 =>
+    refine ⟨h.1, ?_⟩
+    intro y hy
+    simp only [Option.some.injEq] at hy
+    subst hy; rfl
+
+theorem good_step (I : Impl α σ) (sched : α → α) (s : KState α σ) (o : Op α)
+    (h : Good sched s) : Good sched (step I sched s o) := by
+  cases o with
+  | pre => exact ⟨h.1, by intro y hy; simp [step] at hy⟩
+  | dep t => exact good_depTerms I sched s t h
+  | post t =>
+    have h1 := good_depTerms I sched s t h
+    simp only [step]
+    cases hc : (depTerms I sched s t).currY with
+    | none => simpa [hc] using h1
+    | some y =>
+      simp only
+      refine ⟨?_, ?_⟩
+      · intro sl hsl
+        simp only [KState.slices, List.mem_cons] at hsl
+        rcases hsl with rfl | hsl
+        · exact h1.2 _ hc
+        · exact h1.1 sl (by simpa [KState.slices] using hsl)
+      · intro y' hy'
+        simp only at hy'
+        exact h1.2 y' (hc.trans hy')
+  | remesh => exact ⟨h.1, h.2⟩
+  | extend => exact ⟨h.1, h.2⟩
+
+theorem good_foldl (I : Impl α σ) (sched : α → α) (ops : List (Op α)) (s : KState α σ)
+    (h : Good sched s) : Good sched (ops.foldl (step I sched) s) := by
+  induction ops generalizing s with
+  | nil => exact h
+  | cons o r ih => exact ih _ (good_step I sched s o h)
+
+/-- **recorded temperature**: after `setup` and any sequence of solver calls (Euler: `pre, dep, post`;
+RK4: three more `dep` per step; re-mesh/extension in between; any number of `solve` calls), with
+either lookup implementation, every recorded slice has `temperature = schedule(time)`. -/
+theorem recorded_eq_schedule (I : Impl α σ) (sched : α → α) (ops : List (Op α)) :
+    ∀ sl ∈ (run I sched ops).slices, sl.temp = sched sl.time :=
+  (good_foldl I sched ops _ (good_setup I sched)).1
+
+/-- the setup slice is `(0, schedule 0)` -/
+theorem setup_slice (I : Impl α σ) (sched : α → α) :
+    (setup I sched).cur.time = 0 ∧ (setup I sched).cur.temp = sched 0 ∧ (setup I sched).hist = [] :=
+  ⟨rfl, rfl, rfl⟩
+
+/-- every accepted step appends exactly `(t, schedule t)` when the solver has evaluated the rate of
+change first (which `solve` always does) -/
+theorem post_appends (I : Impl α σ) (sched : α → α) (s : KState α σ) (t : α) (y0 : Slice α)
+    (hc : s.currY = some y0) :
+    (step I sched s (.post t)).cur.time = t ∧ (step I sched s (.post t)).cur.temp = sched t ∧
+    (step I sched s (.post t)).hist = s.cur :: s.hist := by
+  simp [step, depTerms, hc]
+
+end run
+
+/-! ## 4. lookup freshness -/
+
+/-- a growth-rate call is *fresh* when every table block it read and the `xEq` it handed out were
+computed within `max` of the temperature of the call -/
+def Fresh (max : α) (o : Obs α) : Prop :=
+  (∀ t ∈ o.tabT, |o.cur - t| ≤ max) ∧ |o.cur - o.eqT| ≤ max
+
+theorem absS_eq_abs (x : α) : absS x = |x| := by
+  unfold absS; split
+  · next h => exact (abs_of_neg h).symm
+  · next h => exact (abs_of_nonneg (not_lt.mp h)).symm
+
+/-- one call of the code as it is: keeps "the whole table is at `Tl`" and is fresh -/
+theorem growthNew_fresh (max : α) (hmax : 0 ≤ max) (s : LNew α) (T a b : α)
+    (hinv : ∀ t ∈ s.tabT, t = s.Tl) :
+    (∀ t ∈ (growthNew max s T a b).1.tabT, t = (growthNew max s T a b).1.Tl) ∧
+    Fresh max (growthNew max s T a b).2 ∧
+    (growthNew max s T a b).2.cur = T ∧
+    |T - (growthNew max s T a b).1.Tl| ≤ max := by
+  unfold growthNew
+  simp only
+  split
+  · refine ⟨by simp [buildNew], ⟨by simp [hmax], by simp [hmax]⟩, rfl, by simp [buildNew, hmax]⟩
+  · next hno =>
+    have hle : |T - s.Tl| ≤ max := by rw [← absS_eq_abs]; exact not_lt.mp hno
+    refine ⟨hinv, ⟨?_, hle⟩, rfl, hle⟩
+    intro t ht
+    simp only at ht ⊢
+    rw [hinv t ht]; exact hle
+
+/-- invariant of a run with the code as it is -/
+def InvNew (max : α) (s : KState α (LNew α)) : Prop :=
+  (∀ t ∈ s.lk.tabT, t = s.lk.Tl) ∧ (∀ o ∈ s.obs, Fresh max o) ∧
+  (∀ sl ∈ s.slices, |sl.temp - sl.eqT| ≤ max) ∧ (∀ y, s.currY = some y → |y.temp - y.eqT| ≤ max)
+
+theorem inv_setup (max : α) (hmax : 0 ≤ max) (sched : α → α) :
+    InvNew max (setup (implNew max) sched) := by
+  have g := growthNew_fresh max hmax (buildNew (sched 0)) (sched 0) (sched 0) (sched 0)
+    (by simp [buildNew])
+  refine ⟨g.1, ?_, ?_, ?_⟩
+  · intro o ho
+    simp only [setup, implNew, List.mem_singleton] at ho
+    subst ho; exact g.2.1
+  · intro sl hsl
+    simp only [setup, implNew, KState.slices, List.mem_singleton] at hsl
+    subst hsl
+    have := g.2.1.2
+    rw [g.2.2.1] at this
+    exact this
+  · intro y hy; simp [setup] at hy
+
+theorem inv_regrow (max : α) (hmax : 0 ≤ max) (s : KState α (LNew α)) (lk : LNew α)
+    (h : InvNew max s) (hlk : ∀ t ∈ lk.tabT, t = lk.Tl) :
+    InvNew max (regrow (implNew max) s lk) := by
+  have g := growthNew_fresh max hmax lk s.cur.temp s.cur.temp s.cur.eqT hlk
+  refine ⟨g.1, ?_, h.2.2.1, h.2.2.2⟩
+  intro o ho
+  simp only [regrow, implNew, List.mem_cons] at ho
+  rcases ho with rfl | ho
+  · exact g.2.1
+  · exact h.2.1 o ho
+
+theorem inv_depTerms (max : α) (hmax : 0 ≤ max) (sched : α → α) (s : KState α (LNew α)) (t : α)
+    (h : InvNew max s) : InvNew max (depTerms (implNew max) sched s t) := by
+  unfold depTerms
+  cases hc : s.currY with
+  | none =>
+    refine ⟨h.1, h.2.1, h.2.2.1, ?_⟩
+    intro y hy
+    simp only [Option.some.injEq] at hy
+    subst hy
+    exact h.2.2.1 s.cur (by simp [KState.slices])
+  | some y0 =>
+    have g := growthNew_fresh max hmax s.lk (sched t) s.cur.temp s.cur.eqT h.1
+    refine ⟨g.1, ?_, h.2.2.1, ?_⟩
+    · intro o ho
+      simp only [implNew, List.mem_cons] at ho
+      rcases ho with rfl | ho
+      · exact g.2.1
+      · exact h.2.1 o ho
+    · intro y hy
+      simp only [Option.some.injEq] at hy
+      subst hy
+      have := g.2.1.2
+      rw [g.2.2.1] at this
+      exact this
+
+theorem inv_step (max : α) (hmax : 0 ≤ max) (sched : α → α) (s : KState α (LNew α)) (o : Op α)
+    (h : InvNew max s) : InvNew max (step (implNew max) sched s o) := by
+  cases o with
+  | pre => exact ⟨h.1, h.2.1, h.2.2.1, by intro y hy; simp [step] at hy⟩
+  | dep t => exact inv_depTerms max hmax sched s t h
+  | post t =>
+    have h1 := inv_depTerms max hmax sched s t h
+    simp only [step]
+    cases hc : (depTerms (implNew max) sched s t).currY with
+    | none => simpa [hc] using h1
+    | some y =>
+      simp only
+      refine ⟨h1.1, h1.2.1, ?_, ?_⟩
+      · intro sl hsl
+        simp only [KState.slices, List.mem_cons] at hsl
+        rcases hsl with rfl | hsl
+        · exact h1.2.2.2 _ hc
+        · exact h1.2.2.1 sl (by simpa [KState.slices] using hsl)
+      · intro y' hy'
+        simp only at hy'
+        exact h1.2.2.2 y' (hc.trans hy')
+  | remesh =>
+    exact inv_regrow max hmax s _ h (by simp [implNew, buildNew])
+  | extend =>
+    refine inv_regrow max hmax s _ h ?_
+    intro t ht
+    simp only [implNew, List.mem_append, List.mem_singleton] at ht ⊢
+    rcases ht with ht | ht
+    · exact h.1 t ht
+    · exact ht
+
+theorem inv_foldl (max : α) (hmax : 0 ≤ max) (sched : α → α) (ops : List (Op α))
+    (s : KState α (LNew α)) (h : InvNew max s) :
+    InvNew max (ops.foldl (step (implNew max) sched) s) := by
+  induction ops generalizing s with
+  | nil => exact h
+  | cons o r ih => exact ih _ (inv_step max hmax sched s o h)
+
+/-- **lookup freshness** (code as it is): for every threshold `max ≥ 0`, every schedule and every
+history of solver calls — heating or cooling, fast or arbitrarily slow, Euler or RK4, with re-meshes
+and extensions of the size grid anywhere — every growth-rate evaluation reads only table entries,
+and hands out only equilibrium compositions, computed within `max` of its own temperature. -/
+theorem lookup_fresh (max : α) (hmax : 0 ≤ max) (sched : α → α) (ops : List (Op α)) :
+    ∀ o ∈ (run (implNew max) sched ops).obs, Fresh max o :=
+  (inv_foldl max hmax sched ops _ (inv_setup max hmax sched)).2.1
+
+/-- … and the equilibrium compositions stored in every recorded slice were computed within `max`
+of that slice's recorded temperature. -/
+theorem recorded_xeq_fresh (max : α) (hmax : 0 ≤ max) (sched : α → α) (ops : List (Op α)) :
+    ∀ sl ∈ (run (implNew max) sched ops).slices, |sl.temp - sl.eqT| ≤ max :=
+  (inv_foldl max hmax sched ops _ (inv_setup max hmax sched)).2.2.1
+
+/-- after a re-mesh or an extension of the grid the table is fresh for the recorded temperature -/
+theorem adjust_fresh (max : α) (hmax : 0 ≤ max) (s : KState α (LNew α)) (lk : LNew α)
+    (hlk : ∀ t ∈ lk.tabT, t = lk.Tl) :
+    ∀ t ∈ (regrow (implNew max) s lk).lk.tabT, |s.cur.temp - t| ≤ max := by
+  have g := growthNew_fresh max hmax lk s.cur.temp s.cur.temp s.cur.eqT hlk
+  intro t ht
+  simp only [regrow, implNew] at ht
+  rw [g.1 t ht]
+  exact g.2.2.2
+
+/-- a rebuild happens exactly when it is needed … -/
+theorem growthNew_rebuild_iff (max : α) (s : LNew α) (T a b : α) :
+    (growthNew max s T a b).2.rebuilt = true ↔ max < |T - s.Tl| := by
+  unfold growthNew
+  simp only
+  rw [absS_eq_abs]
+  split <;> simp_all
+
+/-- … so there is no rebuild storm: after a build at `T`, calls within `max` of `T` do not rebuild -/
+theorem growthNew_no_storm (max : α) (T T' a b : α) (h : |T' - T| ≤ max) :
+    (growthNew max (buildNew T) T' a b).2.rebuilt = false := by
+  have := (growthNew_rebuild_iff max (buildNew T) T' a b).not.mpr (by simpa [buildNew] using not_lt.mpr h)
+  simpa using this
+
+/-! ### the code as it was: D-C13-dtemp -/
+
+/-- one Euler step `k → k+1` at unit time spacing -/
+def stepOps (k : ℕ) : List (Op α) := [.pre, .dep (k : α), .post ((k : α) + 1)]
+
+/-- `n` Euler steps -/
+def rampOps : ℕ → List (Op α)
+  | 0 => []
+  | n + 1 => rampOps n ++ stepOps n
+
+/-- **slow ramp, code as it was**: with a per-step temperature change `|r| ≤ max` the accumulated
+change is reset at every call, so after *any* number `n` of steps the table is still the one built
+at the initial temperature `T0`, while the run is at `T0 + r·n`. -/
+theorem old_ramp_state (max T0 r : α) (hmax : 0 ≤ max) (hr : |r| ≤ max) (n : ℕ) :
+    let s := run (implOld max) (fun t => T0 + r * t) (rampOps n)
+    s.cur = { time := (n : α), temp := T0 + r * n, eqT := T0 } ∧
+    s.lk = { tabT := [T0], dTemp := 0 } ∧
+    s.obs.head? = some { cur := T0 + r * n, tabT := [T0], eqT := T0, rebuilt := false, dTemp := 0 } := by
+  induction n with
+  | zero =>
+    have h0 : ¬ max < absS (0 : α) := by simp [absS, hmax]
+    simp [run, rampOps, setup, implOld, growthOld, h0]
+  | succ n ih =>
+    obtain ⟨h1, h2, h3⟩ := ih
+    have hd : ¬ max < absS (r * ((n : α) + 1) - r * n) := by
+      have : r * ((n : α) + 1) - r * n = r := by ring
+      rw [this, absS_eq_abs]; exact not_lt.mpr hr
+    simp only [run, rampOps, List.foldl_append] at h1 h2 h3 ⊢
+    generalize hs : List.foldl (step (implOld max) fun t => T0 + r * t)
+      (setup (implOld max) fun t => T0 + r * t) (rampOps n) = s at h1 h2 h3 ⊢
+    simp [stepOps, step, depTerms, implOld, growthOld, h1, h2, hd]
+
+/-- the last growth-rate call of such a ramp is stale as soon as the drift exceeds the threshold -/
+theorem lookup_stale_ramp (max T0 r : α) (hmax : 0 ≤ max) (hr : |r| ≤ max) (n : ℕ)
+    (hn : max < |r * n|) :
+    ∃ o ∈ (run (implOld max) (fun t => T0 + r * t) (rampOps n)).obs, ¬ Fresh max o := by
+  obtain ⟨_, _, h3⟩ := old_ramp_state max T0 r hmax hr n
+  refine ⟨_, List.mem_of_mem_head? h3, ?_⟩
+  intro hf
+  have := hf.1 T0 (by simp)
+  simp only at this
+  have h' : T0 + r * (n : α) - T0 = r * n := by ring
+  rw [h'] at this
+  exact absurd this (not_le.mpr hn)
+
+/-- **D-C13-dtemp, concrete witness** (default threshold 1 K): 10 steps of +0.5 K from 723 K.  The
+run is at 728 K and its growth rates are still read from the table built at 723 K. -/
+theorem lookup_stale :
+    ∃ o ∈ (run (implOld (1:ℚ)) (fun t => 723 + (1/2) * t) (rampOps 10)).obs, ¬ Fresh 1 o := by
+  refine lookup_stale_ramp 1 723 (1/2) (by norm_num) ?_ 10 ?_
+  · rw [abs_of_pos] <;> norm_num
+  · rw [abs_of_pos] <;> norm_num
+
+/-- the same for cooling -/
+theorem lookup_stale_cooling :
+    ∃ o ∈ (run (implOld (1:ℚ)) (fun t => 723 + (-1/2) * t) (rampOps 10)).obs, ¬ Fresh 1 o := by
+  refine lookup_stale_ramp 1 723 (-1/2) (by norm_num) ?_ 10 ?_
+  · rw [abs_of_neg] <;> norm_num
+  · rw [abs_of_neg] <;> norm_num
+
+/-- **rebuild storm, code as it was**: once the accumulated change exceeds the threshold it is kept,
+so every later call — even at a constant temperature — rebuilds the table again. -/
+theorem growthOld_storm (max : α) (s : LOld α) (T eq : α) (h : max < |s.dTemp|) :
+    (growthOld max s T T eq).2.rebuilt = true ∧ (growthOld max s T T eq).1.dTemp = s.dTemp := by
+  have hd : max < absS s.dTemp := by rw [absS_eq_abs]; exact h
+  simp [growthOld, hd]
+
+/-! ### non-vacuity: the hypotheses are satisfiable -/
+
+example : ([0, 16, 17] : List ℚ).Pairwise (· < ·) := by decide
+example : npInterp (33/2 : ℚ) [0, 16, 17] [448, 448, 523] = some (971/2) := by
+  have := interp_between (33/2 : ℚ) 16 17 448 523 [0] [448] [] [] rfl rfl (by decide)
+    (by norm_num) (by norm_num)
+  simpa using this.trans (by norm_num)
+example : (0:ℚ) ≤ 1 ∧ |(1/2 : ℚ)| ≤ 1 := by
+  constructor
+  · norm_num
+  · rw [abs_of_pos] <;> norm_num
+example : Fresh (1:ℚ) { cur := 723, tabT := [723, 722], eqT := 724, rebuilt := false, dTemp := 0 } := by
+  refine ⟨?_, ?_⟩
+  · intro t ht
+    simp only [List.mem_cons, List.mem_singleton, List.not_mem_nil, or_false] at ht
+    rcases ht with rfl | rfl <;> norm_num [abs_le]
+  · norm_num [abs_le]
+
 end KawinV.Props.C13
